@@ -132,6 +132,14 @@ def check_site(prog, rep, entry, site, np_funcs, kind):
                 "halo cells outside the raster must be NaN (or no external padding): the numpy path sees NaN-"
                 "initialised borders / clipped windows there; dask's default 'reflect', 'periodic', 'nearest' or a "
                 "number invent neighbours")
+        # ---- H2f: a NaN halo needs floating data
+        if bt in NAN_TEXTS:
+            arr = site.arrays[0]
+            okf = FLOATPROV[0].is_float(f, arr)
+            rep.add('H2f', f, entry, 'array given to map_overlap(boundary=nan): %s' % norm(arr)[:60], site.call.lineno,
+                    okf, 'NaN cannot be stored in an integer halo: the array must be cast to a floating dtype BEFORE '
+                    'map_overlap pads it (casting inside the block function is too late - integer rasters get '
+                    'INT_MIN/0 borders instead of NaN)')
         # ---- H1 depth vs footprint
         d = site.kwargs.get('depth')
         if d is None:
@@ -193,6 +201,7 @@ def check_site(prog, rep, entry, site, np_funcs, kind):
                 'output cell and must not reduce over a block (a per-block min/max/mean differs from the global one)')
 
 
+FLOATPROV = [None]
 FP_CACHE = {}
 FP_RED = {}
 
@@ -540,6 +549,9 @@ def check_H6(prog, rep, entry, f_np, f_da):
 
 # ------------------------------------------------------------------------------------------- driver
 def check(prog, rep):
+    from ..sharedrules import FloatProv, check_validate_arrays
+    FLOATPROV[0] = FloatProv(prog)
+    check_validate_arrays(prog, rep, 'H5', 'multi-raster ops')
     nsites = 0
     nred = 0
     for modname, fname, kind, prim in OPS:
@@ -586,6 +598,8 @@ def check(prog, rep):
     rep.floor('H-site', 25)
     rep.floor('H1', 16)
     rep.floor('H2', 8)
+    rep.floor('H2f', 8)
+    rep.floor('H5', 2)
     rep.floor('H3', 12)
     rep.floor('H0', 20)
     rep.floor('H4', 8)
